@@ -37,6 +37,10 @@ class CollectionValue(GenericValue):
 
     def _get_changes(self) -> Iterator[Change]:
 
+        if self._new_value is undefined:
+            # the only value was rejected (clone() raised an UsageError)
+            return
+
         if self._ast_node is None:
             elements = [None] * len(self._old_value)
         else:
